@@ -52,6 +52,10 @@ pub struct Scn {
     /// shows up as an extra or missing edge)
     #[serde(default)]
     pub lockstep: Option<crate::engine::SeqScn>,
+    /// the history's machine is created with Machine::new from this configuration (input registers,
+    /// digital input, jumper 1) instead of the default one
+    #[serde(default)]
+    pub init: Option<[u8; 6]>,
 }
 
 fn v(oracle: &str, at: (usize, u32), d: String) -> Violation {
@@ -421,7 +425,13 @@ fn run(scn: &Scn, ctx: &mut Ctx) -> Result<(), Violation> {
         ctx.cov.evaluations += seq.events.len() as u64;
         return Ok(());
     }
-    let mut m = Machine::new(MachineConfig::default());
+    let mut m = match scn.init {
+        Some(c) => {
+            ctx.cov.probe("machine-created-from-a-non-default-configuration");
+            Machine::new(MachineConfig { input_fc: c[0], input_fd: c[1], input_fe: c[2], input_ff: c[3], digital_input1: c[4], jumper1: c[5] & 1 != 0, ..MachineConfig::default() })
+        }
+        None => Machine::new(MachineConfig::default()),
+    };
     let mut known = Known::default();
     for (i, op) in scn.ops.iter().enumerate() {
         match op {
@@ -516,7 +526,7 @@ fn program(rng: &mut Rng) -> Image {
     let (bytes, stack) = match rng.below(4) {
         0 => (port_writer(rng), 16),
         1 => {
-            let irq = IrqOpts { enable_key: true, di_windows: rng.bool(), nested_ei: false, isr_work: rng.bool(), enable_by_store: rng.bool(), mask_windows: false, mid_stop: false };
+            let irq = IrqOpts { enable_key: true, di_windows: rng.bool(), nested_ei: false, isr_work: rng.bool(), enable_by_store: rng.bool(), mask_windows: false, mid_stop: false, isr_ei_first: false };
             let o = HazardOpts { len: 6 + rng.usize(20), wild: false, run_into_io: false, with_ei: true, irq: Some(irq) };
             (gen::hazard_program(rng, o), 32)
         }
@@ -591,6 +601,7 @@ impl Check for C07 {
                 follow_inputs: [0; 4],
                 only: None,
                 lockstep: Some(crate::engine::SeqScn { setup, events, max_edges }),
+                init: None,
             };
         }
         let n = 3 + rng.usize(40);
@@ -639,7 +650,7 @@ impl Check for C07 {
                 ops.insert(at + k, o.clone());
             }
         }
-        Scn { ops, follow: follow_up(rng), follow_inputs: [rng.u8(), rng.u8(), rng.u8(), rng.u8()], only: None, lockstep: None }
+        Scn { ops, follow: follow_up(rng), follow_inputs: [rng.u8(), rng.u8(), rng.u8(), rng.u8()], only: None, lockstep: None, init: if rng.chance(1, 3) { Some([rng.u8(), rng.u8(), rng.u8(), rng.u8(), rng.u8(), rng.u8()]) } else { None } }
     }
     fn execute(&self, scn: &Scn, ctx: &mut Ctx) -> Result<(), Violation> {
         run(scn, ctx)
